@@ -84,6 +84,63 @@ def io_model(run, thorough):
     run.expect_counterexample("CtxIOMC", io_mc_cfg(dev='{"DeadlineNoop"}'), "CancelUnblocks", invariant="temporal", timeout=600)
 
 
+IOW_INVS = "TypeOK WireInOrder OkMeansAll LiveNeverFails CtxErrOnlyIfDone NoLeftoversW"
+
+
+def iow_mc_cfg(maxops=2, dev="{}", props=True):
+    return """SPECIFICATION Spec
+CONSTANTS
+  Cap = 2
+  MaxOps = %d
+  Sizes = {1, 3}
+  Dev = %s
+INVARIANTS %s
+%s
+CHECK_DEADLOCK FALSE
+""" % (maxops, dev, IOW_INVS, "PROPERTIES CancelUnblocksW" if props else "")
+
+
+def iow_trace_cfg():
+    return """SPECIFICATION TraceSpec
+CONSTANTS
+  Cap = 12
+  MaxOps = 100
+  Sizes = {1, 3}
+  Dev = {}
+INVARIANTS %s
+CONSTRAINT HighWater
+POSTCONDITION TraceAccepted
+CHECK_DEADLOCK FALSE
+""" % IOW_INVS
+
+
+def iow_model(run, thorough):
+    run.model_check("CtxIOWMC", iow_mc_cfg(3 if thorough else 2), "CtxIOW: Write calls of 1 and 3 chunks over a transport holding 2, every interleaving of caller, helper, context and peer: safety + CancelUnblocksW", timeout=900)
+    run.expect_counterexample("CtxIOWMC", iow_mc_cfg(2, '{"DeadlineNoop"}'), "CancelUnblocksW", timeout=600)
+    run.expect_counterexample("CtxIOWMC", iow_mc_cfg(2, '{"WriteIgnoresContext"}'), "CancelUnblocksW", timeout=600)
+    run.expect_counterexample("CtxIOWMC", iow_mc_cfg(2, '{"WriteDeadlineNotReset"}', props=False), "NoLeftoversW", invariant="NoLeftoversW", timeout=600)
+
+
+def iow_schedules(run, maxsteps):
+    cfg = """SPECIFICATION GSpec
+CONSTANTS
+  Cap = 2
+  MaxOps = 3
+  Sizes = {1, 3}
+  Dev = {}
+  MaxSteps = %d
+INVARIANT Dump
+CHECK_DEADLOCK FALSE
+""" % maxsteps
+    r = run.tlc("CtxIOWGen", cfg, workers=1, timeout=600)
+    out = set()
+    for m in re.finditer(r'<<"SCHED", (".*")>>', r["out"]):
+        out.add(json.loads(m.group(1)))
+    if not out:
+        raise Inconclusive("write-side schedule generation produced nothing\n" + "\n".join(r["out"].splitlines()[-30:]))
+    return sorted(out)
+
+
 def check_C18(run):
     thorough = run.tier == "thorough"
     io_model(run, thorough)
@@ -129,13 +186,24 @@ def check_C17(run):
     bl = run.rng.sample(bl, min(len(bl), 480 if thorough else 48))
     replay_validate(run, bl, ["ctxio", "-transport", "bridge"], "CtxIOTrace", io_trace_cfg(), "C17 cancellation / deadlines over a bridge subprocess",
                     nontrivial=nt, classify=io_classify("C17"), shards=16)
+    # the write direction (spec/CtxIOW.tla): Write calls against a peer that reads only when the schedule says so
+    iow_model(run, thorough)
+    ws = iow_schedules(run, 6)
+    wcanc = [x for x in ws if '"op":"CANCEL"' in x or '"precancelled"' in x]
+    run.extra["schedule_space"]["write_side_len6"] = len(ws)
+    run.extra["schedule_space"]["write_side_with_cancellation"] = len(wcanc)
+    ntw = lambda c: any('"ev":"WE"' in l and '"err":"ctx"' in l for l in c)
+    for tp, k in (("unix", 640 if thorough else 128), ("tcp", 320 if thorough else 64), ("bridge", 160 if thorough else 32)):
+        wsel = run.rng.sample(wcanc, min(len(wcanc), k))
+        replay_validate(run, wsel, ["ctxiow", "-transport", tp], "CtxIOWTrace", iow_trace_cfg(), "C17 blocked writes under cancellation / deadlines over %s" % tp,
+                        nontrivial=ntw, classify=None, shards=16)
     # the client API on top of the stream: receive after Send, Call, Upgrade's receive; receive context = or != send context
     from props_tables import table_replay, TR_CFG, GEN_CFG
     acs = run.generate("ApiCancelGen", GEN_CFG, ["ac_scen.ndjson"])["ac_scen.ndjson"]
     table_replay(run, acs * (4 if thorough else 1), ["apicancel"], "ApiCancel", TR_CFG, "C17 client API (receive / Call / Upgrade-receive) under cancel, deadline, pre-cancelled context", shards=5,
                  nontrivial=lambda c: '"ctxs":"other"' in c)
     run.write_evidence("model_checking",
-        "API-level scenarios of spec/ApiCancel.tla (45: receive after Send / Call / Upgrade's receive x cancel / deadline / pre-cancelled x receive context same as or different from the send context x unix / tcp / bridge; silent scripted server; then a late frame must reach a live caller on the same connection); schedules as for C18 but with cancellable, pre-cancelled and deadline contexts; CANCEL placed by TLC at every quiescent instant (before the call, blocked with nothing in flight, frame partially received, data buffered); transports unix socketpair, TCP loopback, in-memory pipe, bridge subprocess (relay child; stream obtained through Connection.Upgrade); each operation's result records error class, bytes, lateness (> 2 s) and ctxio helper goroutines left; non-trivial = at least one operation returned the context error",
+        "write direction: environment histories of spec/CtxIOWGen.tla (Write of 8 B / 4 MiB with live, cancellable, pre-cancelled, deadline contexts; peer reads once / drains / stays silent; CANCEL while the Write is blocked on full kernel buffers) enumerated exhaustively up to 6 actions, seeded sample replayed over unix (8 KiB socket buffers), tcp (128 KiB) and a bridge subprocess; each Write's result records byte-count class, error class, lateness, helpers left and the write deadline the connection is left with; the peer verifies per operation that all / a prefix / none of its buffer arrived, in call order, unaltered; API-level scenarios of spec/ApiCancel.tla (45: receive after Send / Call / Upgrade's receive x cancel / deadline / pre-cancelled x receive context same as or different from the send context x unix / tcp / bridge; silent scripted server; then a late frame must reach a live caller on the same connection); schedules as for C18 but with cancellable, pre-cancelled and deadline contexts; CANCEL placed by TLC at every quiescent instant (before the call, blocked with nothing in flight, frame partially received, data buffered); transports unix socketpair, TCP loopback, in-memory pipe, bridge subprocess (relay child; stream obtained through Connection.Upgrade); each operation's result records error class, bytes, lateness (> 2 s) and ctxio helper goroutines left; non-trivial = at least one operation returned the context error",
         exhaustive=False,
         assumptions=["'promptly' is one-sided: 2 s where the normal latency is well under 5 ms",
                      "on the bridge the library's reads cannot be observed, quiescence is 'nothing happened for ~30 ms'"])
